@@ -1,5 +1,6 @@
 import OrbitModel.Proofs.StatusMono
-import OrbitModel.Proofs.GenEq
+import OrbitModel.Proofs.GenEqStatus
+import OrbitModel.Proofs.GenEqWrite
 /-!
 # C19 — replication progress never regresses and equals its maximum at rest
 
@@ -42,5 +43,11 @@ theorem tied_to_go_text (len : Int) (s : Status) (arg : Int) :
   ⟨gen_recalcMax len s arg, gen_recalcProgress len s⟩
 
 example : (({} : Status).run [.maxOnly 0 4, .status 1 1, .status 4 4]).progress = 4 := by decide
+
+/-- the write path of the Go text of this run raises the status right after the append, before
+anything that can still fail (head persistence, view update): a store never holds an entry its status
+does not count -/
+theorem status_raised_with_the_append_tied_to_go_text : Gen.addOperationOrder = Order.addOperation :=
+  gen_addOperation_order
 
 end Orbit.C19
